@@ -68,6 +68,7 @@ def run(ctx):
         ctx.guard(str_index, ctx, cfg, fs)
         ctx.guard(str_cut, ctx, cfg, fs)
         ctx.guard(unit_agreement, ctx, cfg, fs)
+        ctx.guard(no_hash_order, ctx, cfg, fs)
         ctx.guard(nonempty, ctx, cfg, fs)
         ctx.guard(short_name_nonempty, ctx, cfg, fs)
         import consumers, c08 as c08k
@@ -382,6 +383,15 @@ def unit_agreement(ctx, cfg, fs):
                '%s obtains byte offsets / byte lengths of strings; none of them reaches the index of a Vec or slice of non-byte elements: %s' % (short(root), sorted(set(hits)) or 'ok'), where=fs.bodies[root].where() if hasattr(fs.bodies[root], 'where') else None, cfg=cfg)
     if n == 0:
         raise Broken('unit_agreement: no function obtains a byte offset (sources not recognised)')
+
+def no_hash_order(ctx, cfg, fs):
+    """same parser + same arguments => same outcome, byte for byte.  std's HashMap / HashSet iterate in an order that differs between
+    instances (RandomState), so anything rendered or decided by walking one differs from run to run.  The library uses no hash
+    containers at all (Vec / BTreeMap keep an order that depends on the data only); the rule keeps it that way."""
+    hits = sorted({'%s in %s' % (re.sub(r'::<.*', '', n_), short(outer(b.path))) for b in fs.bodies.values() for c in b.calls() for n_ in c.names[:1]
+                   if re.search(r'std::collections::(hash|HashMap|HashSet)|hash::map::HashMap|hash::set::HashSet|RandomState|hash_map::|hash_set::', c.full)})
+    tys = sorted({'%s: %s' % (short(outer(b.path)), b.local_ty(l)[:60]) for b in fs.bodies.values() for l in range(len(b.locals)) if re.search(r'\bHash(Map|Set)<', b.local_ty(l) or '')})
+    ctx.ob('U.purity', 'no-hash-ordered-containers', not hits and not tys, 'calls into std hash containers: %s; locals of a hash container type: %s (%d functions scanned)' % (hits or 'none', tys[:5] or 'none', len(fs.bodies)), cfg=cfg)
 
 def str_cut(ctx, cfg, fs):
     """String::truncate / split_off / insert / remove / drain / replace_range / str::split_at take byte offsets that
